@@ -326,7 +326,17 @@ def random_arch(rng):
     sd = int(rng.integers(2, 7))
     cd = int(rng.integers(1, 7))
     layers = [int(rng.integers(1, 9)) for _ in range(int(rng.integers(0, 4)))]
+    if layers and not rng.integers(5):   # one wide layer (up to 64 allowed)
+        layers[int(rng.integers(len(layers)))] = int(rng.integers(9, 65))
+        while n_params(sd, cd, layers) > 1000:
+            k = int(np.argmax(layers))
+            layers[k] = max(1, layers[k] // 2)
     return sd, cd, layers
+
+
+def n_params(sd, cd, layers):
+    sizes = [sd, *layers, cd]
+    return sum((a + 1) * b for a, b in zip(sizes, sizes[1:]))
 
 
 def run_shard(ctx, args):
@@ -440,6 +450,19 @@ def run_shard(ctx, args):
             rl = list(layers[::-1])
             judge_ann(ctx, make_ann(sd, cd, list(rl)), sd, cd, rl, 2)
             ctx.count("ann_reversed_layer_order_pairs")
+        # ... and architectures whose descriptions read alike: [12] and
+        # [1, 2], [1, 23] and [12, 3]
+        if a % 3 == 0:
+            w1, w2 = int(rng.integers(1, 7)), int(rng.integers(0, 10))
+            if w1 == 6:
+                w2 = min(w2, 4)
+            wide = [int(f"{w1}{w2}")]
+            split = [w1, w2] if w2 >= 1 else [w1]
+            first, second = (wide, split) if rng.integers(2) else (
+                split, wide)
+            judge_ann(ctx, make_ann(sd, cd, list(first)), sd, cd, first, 1)
+            judge_ann(ctx, make_ann(sd, cd, list(second)), sd, cd, second, 2)
+            ctx.count("ann_same_digits_pairs")
         if sd != cd:
             judge_ann(ctx, make_ann(cd if cd >= 2 else 2, sd, list(layers)),
                       cd if cd >= 2 else 2, sd, layers, 2)
